@@ -30,6 +30,8 @@ var (
 func c06Conds() []ref.Node {
 	return []ref.Node{
 		bin(">", cA, nl("1")), bin("<", cB, nl("2")), bin("=", cA, cB), bin("!=", cA, nl("2")), bin("=", cS, sl("x")), bin(">=", cB, nl("0.5")),
+		// the literal first (a keyword directly in front of a number when the condition follows AND / OR / NOT / WHEN)
+		bin(">", nl("2"), cA), bin("<=", nl("0.5"), cB),
 	}
 }
 
